@@ -41,8 +41,8 @@ def extra(report, env):
     import random
     from props.common import bounded
     rng = random.Random(env['seed'])
-    words = ['apple', 'Apple', 'pear', 'plum', 'fig', 'figs', 'kiwi', 'lime', 'PLUM', 'peach', 3, 7, 2.5]
-    probes_pool = ['apple', 'pear', 'p*', 'fig?', '?i*', 'plum', 'kiwi', 'zzz', 3, 7, 2.5, 4]
+    words = ['apple', 'Apple', 'pear', 'plum', 'fig', 'figs', 'kiwi', 'lime', 'PLUM', 'peach', 3, 7, 2.5, 'pea', 'AB-1', 'AB-10', 'AB-100', 'app']
+    probes_pool = ['apple', 'pear', 'p*', 'fig?', '?i*', 'plum', 'kiwi', 'zzz', 3, 7, 2.5, 4, 'pea', 'AB-1', 'AB-10', 'app', 'fig']
     cases = 0
     fails = []
     for _ in range(60 if env['tier'] == 'quick' else 1000):
@@ -55,6 +55,19 @@ def extra(report, env):
         if r is not None and len(fails) < 5:
             fails.append({'formula': 'MATCH / INDEX over a host list', 'seed_words': seed_words, 'edits': edits, 'probes': probes,
                           'detail': 'after %d in-place edits by the host: %s' % r})
+    # positions that are not positions: fractions between 0 and 1, negative fractions, beyond the end by a fraction - an error, never an element
+    from pyvc import e2e
+    pi = e2e.new_parser()
+    pi.set_variable('vec', [10, 20, 30])
+    pi.set_variable('tab', [[1, 2, 3], [4, 5, 6]])
+    pi.on('callRangeValue', lambda a, b, setter: setter([[1, 2, 3], [4, 5, 6]]))
+    for text in ('INDEX(vec,0.5)', 'INDEX(vec,0.999)', 'INDEX(vec,-0.5)', 'INDEX(vec,3.5)', 'INDEX(vec,4)', 'INDEX(vec,-1)', 'INDEX({10,20,30},0.5)', 'INDEX({10;20;30},0.5)',
+                 'INDEX(tab,0.5,1)', 'INDEX(tab,1,0.5)', 'INDEX(tab,2.5,1)', 'INDEX(tab,1,3.5)', 'INDEX(tab,-0.5,1)', 'INDEX(A1:C2,0.5,1)', 'INDEX(A1:C2,1,-0.5)',
+                 'CHOOSE(0.5,"a","b")', 'CHOOSE(2.5,"a","b")', 'CHOOSE(-0.5,"a","b")', 'CHOOSE(3,"a","b")', 'CHOOSE(0,"a","b")'):
+        cases += 1
+        r = pi.parse(text)
+        if r['error'] is None and len(fails) < 5:
+            fails.append({'formula': text, 'seed_words': [], 'edits': [], 'probes': [], 'detail': 'not a position inside the array: an error is expected, got %r' % (r,)})
     bounded(report, 'C18.histories', 'MATCH(x,array,0) and INDEX(array,MATCH(x,array,0)) over a host list (variable and range) that the host edits in place '
             'between evaluations: seeded lists of 1..7 words / numbers, 1..4 edits, 3 probes (text with wildcards, numbers)', cases, fails)
 
